@@ -237,6 +237,12 @@ theorem Map_resize_a11_pin :
 theorem Map_resize_u0_pin (c : BitVec 64) :
     Gen.MapSites.Map_resize_u0 c = (c + (1#64)) := by pin_tac Gen.MapSites.Map_resize_u0
 
+theorem Map_resize_g0_0_pin (c : BitVec 64) (chunkSize : BitVec 64) :
+    Gen.MapSites.Map_resize_g0_0 c chunkSize = (c * chunkSize) := by pin_tac Gen.MapSites.Map_resize_g0_0
+
+theorem Map_resize_g0_1_pin (c : BitVec 64) (chunkSize : BitVec 64) (tableLen : BitVec 64) :
+    Gen.MapSites.Map_resize_g0_1 c chunkSize tableLen = (OtterVerif.Bv.smin ((c + (1#64)) * chunkSize) tableLen) := by pin_tac Gen.MapSites.Map_resize_g0_1
+
 theorem Map_resize_a12_pin (start : BitVec 64) :
     Gen.MapSites.Map_resize_a12 start = start := by pin_tac Gen.MapSites.Map_resize_a12
 
@@ -439,6 +445,8 @@ theorem siteParams_pin : Gen.MapSites.siteParams = [("newMap_c0", ["sizeHint"]),
   ("Map_resize_a10", ["chunks", "tableLen"]),
   ("Map_resize_a11", []),
   ("Map_resize_u0", ["c"]),
+  ("Map_resize_g0_0", ["c", "chunkSize"]),
+  ("Map_resize_g0_1", ["c", "chunkSize", "tableLen"]),
   ("Map_resize_a12", ["start"]),
   ("Map_resize_u1", ["i"]),
   ("Map_resize_a13", ["m_copyBucketWithDestLock__table_buckets_i__newTable"]),
@@ -485,31 +493,31 @@ theorem siteParams_pin : Gen.MapSites.siteParams = [("newMap_c0", ["sizeHint"]),
   ("setByte_a0", ["idx"]),
   ("setByte_r0", ["b", "shift", "w"])] := by rfl
 
-theorem shape_pin : Gen.MapSites.shape = [("NewWithSize", [0, 0, 0, 1]),
-  ("New", [0, 0, 0, 1]),
-  ("newMap", [1, 0, 6, 1]),
-  ("newMapTable", [2, 0, 6, 1]),
-  ("zeroValue", [0, 0, 0, 1]),
-  ("Map_Get", [4, 1, 12, 2]),
-  ("Map_Compute", [15, 1, 26, 6]),
-  ("Map_newerTableExists", [0, 0, 0, 1]),
-  ("Map_resizeInProgress", [0, 0, 0, 1]),
-  ("Map_waitForResize", [1, 0, 0, 0]),
-  ("Map_resize", [11, 3, 16, 0]),
-  ("Map_copyBucketWithDestLock", [3, 2, 8, 1]),
-  ("Map_copyBucket", [3, 2, 8, 1]),
-  ("Map_Range", [4, 1, 11, 0]),
-  ("Map_Clear", [0, 0, 1, 0]),
-  ("Map_Size", [0, 0, 1, 1]),
-  ("appendToBucket", [3, 1, 6, 0]),
-  ("mapTable_addSize", [0, 0, 1, 0]),
-  ("mapTable_addSizePlain", [0, 1, 1, 0]),
-  ("mapTable_sumSize", [0, 1, 1, 1]),
-  ("h1", [0, 0, 0, 1]),
-  ("h2", [0, 0, 0, 1]),
-  ("broadcast", [0, 0, 0, 1]),
-  ("firstMarkedByteIndex", [0, 0, 0, 1]),
-  ("markZeroBytes", [0, 0, 0, 1]),
-  ("setByte", [0, 0, 1, 1])] := by rfl
+theorem shape_pin : Gen.MapSites.shape = [("NewWithSize", [0, 0, 0, 1, 0]),
+  ("New", [0, 0, 0, 1, 0]),
+  ("newMap", [1, 0, 6, 1, 0]),
+  ("newMapTable", [2, 0, 6, 1, 0]),
+  ("zeroValue", [0, 0, 0, 1, 0]),
+  ("Map_Get", [4, 1, 12, 2, 0]),
+  ("Map_Compute", [15, 1, 26, 6, 0]),
+  ("Map_newerTableExists", [0, 0, 0, 1, 0]),
+  ("Map_resizeInProgress", [0, 0, 0, 1, 0]),
+  ("Map_waitForResize", [1, 0, 0, 0, 0]),
+  ("Map_resize", [11, 3, 16, 0, 1]),
+  ("Map_copyBucketWithDestLock", [3, 2, 8, 1, 0]),
+  ("Map_copyBucket", [3, 2, 8, 1, 0]),
+  ("Map_Range", [4, 1, 11, 0, 0]),
+  ("Map_Clear", [0, 0, 1, 0, 0]),
+  ("Map_Size", [0, 0, 1, 1, 0]),
+  ("appendToBucket", [3, 1, 6, 0, 0]),
+  ("mapTable_addSize", [0, 0, 1, 0, 0]),
+  ("mapTable_addSizePlain", [0, 1, 1, 0, 0]),
+  ("mapTable_sumSize", [0, 1, 1, 1, 0]),
+  ("h1", [0, 0, 0, 1, 0]),
+  ("h2", [0, 0, 0, 1, 0]),
+  ("broadcast", [0, 0, 0, 1, 0]),
+  ("firstMarkedByteIndex", [0, 0, 0, 1, 0]),
+  ("markZeroBytes", [0, 0, 0, 1, 0]),
+  ("setByte", [0, 0, 1, 1, 0])] := by rfl
 
 end OtterVerif.Pin.MapSites
